@@ -104,7 +104,10 @@ def reproduced_by_program(ctx, c, obs):
         return crashed
     if obs.get('status') not in ('ok', 'err'):
         return None
-    return (not crashed) and ((rc == 0) == (obs.get('status') == 'ok')) and core.canon_out(out) == out_of(obs)
+    if obs.get('status') == 'err':
+        # (on a usage error urfave/cli prints its help to standard output, which the driver discards: compare the failure only)
+        return (not crashed) and rc != 0
+    return (not crashed) and rc == 0 and core.canon_out(out) == out_of(obs)
 
 
 def summarize(o):
